@@ -132,11 +132,20 @@ pub fn check(case: &Case, obs: &Obs) -> CheckResult {
             if *lower {
                 text.make_ascii_lowercase();
             }
-            match lex_single(text.as_bytes()) {
-                Some(Token::NonDecimalNumericProgramData(v)) => {
-                    ensure!(v == *value, "nondecimal-lex", "{text} lexed to value {v}, denotes {value}");
+            // ... also with leading zeros (their number derived from the value: 0..3, now and then up to 520)
+            let z = match value % 16 {
+                0..=9 => (value % 3) as usize,
+                10..=13 => (value % 67) as usize,
+                _ => [190usize, 240, 250, 255, 256, 257, 300, 520][(*value as usize >> 4) % 8],
+            };
+            for zeros in [0, z] {
+                let t = format!("{}{}{}", &text[..2], "0".repeat(zeros), &text[2..]);
+                match lex_single(t.as_bytes()) {
+                    Some(Token::NonDecimalNumericProgramData(v)) => {
+                        ensure!(v == *value, "nondecimal-lex", "{t} lexed to value {v}, denotes {value}");
+                    }
+                    other => fail!("nondecimal-lex", "{t} lexed to {other:?}"),
                 }
-                other => fail!("nondecimal-lex", "{text} lexed to {other:?}"),
             }
             Ok(())
         }
